@@ -271,7 +271,8 @@ TrackerController::send_update_event() {
     if (!tracker.is_usable())
       continue;
 
-    m_tracker_list->send_event(tracker, tracker::TrackerState::EVENT_NONE);
+    // Keep carrying a pending start/completed event, a plain update would lose it.
+    m_tracker_list->send_event(tracker, current_send_event());
     break;
   }
 }
